@@ -26,6 +26,7 @@ Inductive prog :=
 | PDefer (os : list lockop)   (* defer m.Unlock() / defer m.Lock() / defer func(){ ops }() *)
 | PCall (f : Z)               (* call of another extracted function *)
 | PSend (c : Z)               (* blocking channel send (site c) *)
+| PClose (c : Z)              (* close of a channel (site c) *)
 | PPanic                      (* a dereference the request controls: execution may panic here *)
 | PSeq (p q : prog)
 | PAlt (p q : prog)           (* if / switch / select: either branch *)
@@ -87,12 +88,34 @@ Inductive fout := FNorm (h : held) | FPan (h : held) | FBad.
 Definition lift (fo : fout) (ds : defers) : out :=
   match fo with FNorm h => ONorm h ds | FPan h => OPan h ds | FBad => OBad end.
 
-Definition send_ok (allow : list Z) (c : Z) (h : held) : bool :=
-  match h with [] => true | _ => existsb (Z.eqb c) allow end.
+(* what is demanded of the locks held at a channel send / close site *)
+Record policy := mkPol { p_send : Z -> held -> bool; p_close : Z -> held -> bool }.
+Definition send_ok (pol : policy) (c : Z) (h : held) : bool := p_send pol c h.
+Definition close_ok (pol : policy) (c : Z) (h : held) : bool := p_close pol c h.
+
+(* the policy used by Props/C14.v:
+   - a blocking send is done with no lock held, unless its site is listed in [allow];
+   - a send at a site guarded by mutex m ([sguards]) is done while m is held (read or write): the
+     channels of that class are closed under m's write lock, so only holding m excludes a send on
+     a closed channel;
+   - a close at a site guarded by m ([cguards]) is done under m's write lock *)
+Fixpoint guard_of (gs : list (Z * Z)) (c : Z) : option Z :=
+  match gs with
+  | [] => None
+  | (c', m) :: r => if c' =? c then Some m else guard_of r c
+  end.
+Definition std_policy (allow : list Z) (sguards cguards : list (Z * Z)) : policy :=
+  mkPol
+    (fun c h =>
+       match guard_of sguards c with
+       | Some m => has_any m h
+       | None => match h with [] => true | _ => existsb (Z.eqb c) allow end
+       end)
+    (fun c h => match guard_of cguards c with Some m => has m W h | None => true end).
 
 Section Sem.
 Variable funs : Z -> option prog.
-Variable allow : list Z.       (* channel-send sites accepted while a lock is held *)
+Variable allow : policy.       (* what channel sends / closes may be done under which locks *)
 
 (* ---- relational semantics: every execution, any number of loop iterations, any call depth *)
 Inductive exec : prog -> held -> defers -> out -> Prop :=
@@ -105,6 +128,8 @@ Inductive exec : prog -> held -> defers -> out -> Prop :=
 | E_call_unknown : forall f h ds, funs f = None -> exec (PCall f) h ds OBad
 | E_send_ok : forall c h ds, send_ok allow c h = true -> exec (PSend c) h ds (ONorm h ds)
 | E_send_bad : forall c h ds, send_ok allow c h = false -> exec (PSend c) h ds OBad
+| E_close_ok : forall c h ds, close_ok allow c h = true -> exec (PClose c) h ds (ONorm h ds)
+| E_close_bad : forall c h ds, close_ok allow c h = false -> exec (PClose c) h ds OBad
 | E_panic_no : forall h ds, exec PPanic h ds (ONorm h ds)
 | E_panic_yes : forall h ds, exec PPanic h ds (OPan h ds)
 | E_seq_norm : forall p q h ds h1 ds1 o,
@@ -189,6 +214,7 @@ Fixpoint outs (p : prog) (h : held) (ds : defers) : list out :=
   | PDefer os => [ONorm h (os :: ds)]
   | PCall f => map (fun fo => lift fo ds) (call f h)
   | PSend c => if send_ok allow c h then [ONorm h ds] else [OBad]
+  | PClose c => if close_ok allow c h then [ONorm h ds] else [OBad]
   | PPanic => [ONorm h ds; OPan h ds]
   | PSeq p q =>
       dedup (flat_map (fun o => match o with ONorm h1 ds1 => outs q h1 ds1 | _ => [o] end) (outs p h ds))
